@@ -1,4 +1,5 @@
 """C12 -- independence of packaging and of homogeneous rescaling (T1, H1)."""
+from ..rules import misc_rules as MI
 from ..rules import numpy_rules as NP
 from ..rules import dtype_rules as D
 from ..rules import cache_rules as CA
@@ -30,6 +31,7 @@ def run(ctx):
     ctx.do(H.rule_h2)
     ctx.do(D.rule_t2)
     ctx.do(NP.rule_np2)
+    ctx.do(MI.rule_np3, [HYP, "geometry_tools/projective.py", CORE, "geometry_tools/coxeter.py", "geometry_tools/lie/core.py"])
     ctx.do(D.rule_lk2, [HYP, "geometry_tools/projective.py", "geometry_tools/complex_projective.py", "geometry_tools/coxeter.py", CORE])
     ctx.do(CA.rule_query_purity, "CoxeterGroup", ["bilinear_form", "cartan_matrix", "tits_vinberg_rep"])
     ctx.do(D.rule_t3, [CORE, HYP, 'geometry_tools/projective.py'])
